@@ -55,7 +55,7 @@ Proof. vm_compute. reflexivity. Qed.
 (* stable label lists of several kinds; label lists pandas rewrites *)
 Example label_stable_examples :
   label_stable [CInt 1; CInt 2] = true /\ label_stable [CStr "a"; CStr "b"] = true /\
-  label_stable [CStr "a"; CInt 1; CTup 2 3; CFlt (FFrac 5 1)] = true /\ label_stable [CNone; CNone] = true /\
+  label_stable [CStr "a"; CInt 1; CTup (AInt 2) (AInt 3); CFlt (FFrac 5 1)] = true /\ label_stable [CNone; CNone] = true /\
   label_stable [CPer 1 30; CPer 1 31] = true /\ label_stable [CFlt (FInt 1); CFlt (FFrac 1 1)] = true /\
   label_stable [CInt 1; CNone] = false /\ label_stable [CInt 1; CFlt (FFrac 1 1)] = false.
 Proof. vm_compute. repeat split; reflexivity. Qed.
@@ -339,3 +339,48 @@ Example ex_container_hyps :
 Proof.
   split; [reflexivity|]. intros k s [H|[H|[H|[]]]]; inversion H; subst; reflexivity.
 Qed.
+
+(* ------------------------------------------------------------------ MultiIndex span, not lexsorted, repeated first-level values *)
+Definition mi_span : span :=
+  mkSpan (SPandas KMultiIndex PObject)
+         [CTup (AInt 2000) (AStr "spring"); CTup (AInt 2000) (AStr "summer"); CTup (AInt 2000) (AStr "autumn");
+          CTup (AInt 2001) (AStr "spring")].
+Definition mi_model : fmodel :=
+  mkModel mi_span ["H"] [("H", mkSeries NFloat [CFlt (FInt 0); CFlt (FInt 1); CFlt (FInt 4); CFlt (FInt 9)])]
+          (mkSeries NStr [CStr "-"; CStr "-"; CStr "-"; CStr "-"]) (mkSeries NInt [CInt (-1); CInt (-1); CInt (-1); CInt (-1)]).
+Lemma mi_model_wf : wf_model mi_model 4.
+Proof.
+  constructor.
+  - repeat constructor; cbn; intuition discriminate.
+  - cbn. intuition discriminate.
+  - cbn. intuition discriminate.
+  - intros k H. cbn in H. destruct H as [<-|[]]; eexists; split; reflexivity.
+  - reflexivity.
+  - reflexivity.
+Qed.
+Example mi_roundtrip :
+  match model_to_table false false false mi_model with
+  | TOk t => match from_table (mkClass ["H"] NFloat (CFlt (FInt 0)) true) t with
+             | TOk m' => fspan m' = mi_span /\ fvars m' = fvars mi_model
+             | _ => False
+             end
+  | _ => False
+  end.
+Proof. vm_compute. split; reflexivity. Qed.
+
+(* the same labels as a plain list of tuples: an object Index, and list(index) comes back in the same order *)
+Example tuple_list_roundtrip :
+  match pd_index (mkSpan SList (splabels mi_span)) with
+  | Some ix => ikd ix = KIndex /\ span_of_index ix = mkSpan SList (splabels mi_span)
+  | None => False
+  end.
+Proof. vm_compute. split; reflexivity. Qed.
+
+(* TimedeltaIndex / DatetimeIndex / PeriodIndex in non-monotonic order with a repeated label: kept as they are *)
+Example kept_kinds_unsorted :
+  span_of_index (mkIndex KTimedeltaIndex PTimedelta [CTd 3; CTd 1; CTd 1]) = mkSpan (SPandas KTimedeltaIndex PTimedelta) [CTd 3; CTd 1; CTd 1] /\
+  span_of_index (mkIndex KDatetimeIndex PDatetime [CTs 5; CTs 2]) = mkSpan (SPandas KDatetimeIndex PDatetime) [CTs 5; CTs 2] /\
+  span_of_index (mkIndex KPeriodIndex (PPeriod 1) [CPer 1 32; CPer 1 30]) = mkSpan (SPandas KPeriodIndex (PPeriod 1)) [CPer 1 32; CPer 1 30] /\
+  span_of_index (mkIndex KIndex PObject [CInt 3; CStr "a"; CInt 3]) = mkSpan SList [CInt 3; CStr "a"; CInt 3] /\
+  span_of_index (mkIndex KRange PInt64 [CInt 3; CInt 2]) = mkSpan SList [CInt 3; CInt 2].
+Proof. repeat split; reflexivity. Qed.
